@@ -64,14 +64,15 @@ type script struct {
 }
 
 type reqState struct {
-	invoked int32
-	fi, hi  int32 // -1 unknown
-	flush   int32 // -1 not attempted
-	hijack  int32
-	hdrSeen int32
-	read    int64
-	done    chan struct{}
-	once    sync.Once
+	invoked  int32
+	fi, hi   int32 // -1 unknown
+	flush    int32 // -1 not attempted
+	hijack   int32
+	hdrSeen  int32
+	read     int64
+	done     chan struct{}
+	once     sync.Once
+	panicked atomic.Value // string
 }
 
 type scen struct {
@@ -446,8 +447,8 @@ func (s *scen) Op(f []string) string {
 	body := hx.KVInt(f, "body", 0)
 	resp, st, err := s.do(body, nil)
 	if err != nil {
-		<-waitOr(st.done, 2*time.Second)
-		return fmt.Sprintf("err transport invoked=%d", atomic.LoadInt32(&st.invoked))
+		<-waitOr(st.done, 500*time.Millisecond)
+		return fmt.Sprintf("err transport:%s invoked=%d%s", errClass(err), atomic.LoadInt32(&st.invoked), panicNote(st))
 	}
 	atomic.StoreInt32(&st.hdrSeen, 1)
 	sum := adler32.New()
@@ -471,12 +472,29 @@ func (s *scen) Op(f []string) string {
 	_ = resp.Body.Close()
 	<-waitOr(st.done, 3*time.Second)
 	if rerr != nil {
-		return fmt.Sprintf("err body status=%d invoked=%d", resp.StatusCode, atomic.LoadInt32(&st.invoked))
+		return fmt.Sprintf("err body:%s status=%d invoked=%d%s", errClass(rerr), resp.StatusCode, atomic.LoadInt32(&st.invoked), panicNote(st))
 	}
 	inv := atomic.LoadInt32(&st.invoked)
 	fi, hi := atomic.LoadInt32(&st.fi), atomic.LoadInt32(&st.hi)
 	return fmt.Sprintf("status=%d invoked=%d body=%d:%08x hdr=%s flush=%s hijack=%s fi=%s hi=%s", resp.StatusCode, inv, total, sum.Sum32(),
 		canonHeaders(resp.Header), tri(atomic.LoadInt32(&st.flush)), tri(atomic.LoadInt32(&st.hijack)), tri(fi), tri(hi))
+}
+
+func panicNote(st *reqState) string {
+	if p, ok := st.panicked.Load().(string); ok {
+		return " panic=" + p
+	}
+	return ""
+}
+
+func errClass(err error) string {
+	m := err.Error()
+	for _, k := range []string{"EOF", "Timeout exceeded", "deadline exceeded", "connection refused", "connection reset", "cannot assign", "broken pipe", "malformed"} {
+		if strings.Contains(m, k) {
+			return strings.ReplaceAll(k, " ", "_")
+		}
+	}
+	return "other"
 }
 
 func waitOr(c chan struct{}, d time.Duration) chan struct{} {
@@ -534,6 +552,12 @@ func newScenario(cfg []string) (hx.Handler, string) {
 	top := http.HandlerFunc(func(w http.ResponseWriter, r *http.Request) {
 		st := s.state(r.Header.Get("X-Req-Id"))
 		defer st.once.Do(func() { close(st.done) })
+		defer func() {
+			if p := recover(); p != nil {
+				st.panicked.Store(strings.ReplaceAll(fmt.Sprint(p), " ", "_"))
+				panic(http.ErrAbortHandler)
+			}
+		}()
 		stack.ServeHTTP(w, r)
 	})
 	s.srv = httptest.NewUnstartedServer(top)
